@@ -9,6 +9,7 @@ import (
 	"testing"
 
 	"github.com/bbva/qed/api/apihttp"
+	"github.com/bbva/qed/balloon"
 	"github.com/bbva/qed/client"
 	"pgregory.net/rapid"
 
@@ -55,6 +56,13 @@ func exec(h H, rec *pbt.Rec) error {
 	}
 	m := refmodel.NewLog()
 	var pairs, later int64
+	type heldProof struct {
+		p    *balloon.MembershipProof
+		e    refmodel.D
+		snap *balloon.Snapshot
+		at   uint64
+	}
+	var held []heldProof
 	off := 0
 	for ci, c := range h.Calls {
 		part := ds[off : off+c.N]
@@ -64,6 +72,12 @@ func exec(h H, rec *pbt.Rec) error {
 		}
 		m.AddBulk(part)
 		cur := uint64(m.Len() - 1)
+		// keep one proof per call: an answer handed to a client must not change under its hands
+		// when the log grows (it has to verify against the same snapshots for ever)
+		if hp, err := b.Bal.QueryDigestMembershipConsistency(rig.Dg(part[0]), cur); err == nil && len(held) < 40 {
+			sn, _ := b.ClientSnapshot(cur, cur)
+			held = append(held, heldProof{hp, part[0], sn, cur})
+		}
 		// every event so far, at q = current ("keeps holding after later insertions")
 		stride := 1
 		if off > 120 {
@@ -121,6 +135,12 @@ func exec(h H, rec *pbt.Rec) error {
 			}
 		}
 	}
+	for _, hp := range held {
+		if !hp.p.DigestVerify(rig.Dg(hp.e), hp.snap) {
+			return fmt.Errorf("a proof for event %x… obtained when the log was at version %d verified then, but no longer verifies against the same snapshots now that the log is at version %d: the answer changed after it was handed out", hp.e[:4], hp.at, cur)
+		}
+	}
+	rec.Count("held_proofs_reverified", int64(len(held)))
 	if h.HTTP {
 		if err := viaHTTP(b, m, ds, cur, rec); err != nil {
 			return err
